@@ -67,6 +67,9 @@ type env struct {
 func mustRing(c *vf.Ctx, name string, data []byte, armored bool) openpgp.EntityList {
 	var el openpgp.EntityList
 	var err error
+	id := flightID.Add(1)
+	inflight.Store(id, &flight{"loading fixture key " + name, data, func() string { return "fixture key " + name }, time.Now()})
+	defer inflight.Delete(id)
 	if armored {
 		el, err = openpgp.ReadArmoredKeyRing(bytes.NewReader(data))
 	} else {
